@@ -419,6 +419,16 @@ func (c *Ctx) AllocatedHere(s string) bool {
 
 func (c *Ctx) DeclRaw(s string) { c.decls = append(c.decls, s) }
 
+// DeclOnce adds a global declaration (an uninterpreted function) to the prelude of every query, once.
+func (c *Ctx) DeclOnce(s string) {
+	for _, d := range c.sortDecls {
+		if d == s {
+			return
+		}
+	}
+	c.sortDecls = append(c.sortDecls, s)
+}
+
 func (c *Ctx) Assume(t Term, why string) {
 	if t.IsTrue() || c.noName > 0 {
 		return
